@@ -89,10 +89,10 @@ def argsort (p : List Nat) : List Nat := (List.range p.length).map (fun i => p.i
 /-! ## product kernels with a forced factor action
 
 `Kronecker._matmat` and `BlockDiag._matmat` (Model/Kernels.lean, Basic/Tensor.lean) call the
-factor's product once per step.  The kernels there take the action as a function
-`Nat → MatF R → MatF R`, which the compiler eta-expands (the factor's product would be
-re-evaluated for every entry read).  The variants below take the action as a `MatV`-valued
-function — evaluated once per step — and are definitionally the same functions
+factor's product once per step.  The variants below were introduced when the kernels there
+still took the action as a function `Nat → MatF R → MatF R` (which the compiler eta-expands:
+the factor's product was re-evaluated for every entry read); `FacAct.act` is now `MatV`-valued
+as well, and the two families are definitionally the same functions
 (`kronMatmatV_eq`, `bdiagMatmatV_eq` in Lemmas/InvKernels.lean). -/
 
 /-- a factor with a `MatV`-valued action -/
